@@ -989,6 +989,17 @@ fn record_one(seed: u64) -> RecOut {
                     // manager gone and no handle exists: this caller never starts
                     meta_callers.insert(name.clone(), json!({"kind": kind, "k": k}));
                 }
+            } else if choice == 8 && callers.iter().any(|c| c.res.is_none() && c.name.starts_with('w')) {
+                // a path_timeout that elapses: the pending future of a path_wait caller is dropped
+                let idx: Vec<usize> = callers.iter().enumerate().filter(|(_, c)| c.res.is_none() && c.name.starts_with('w')).map(|(i, _)| i).collect();
+                let c = &callers[idx[rng.below(idx.len() as u64) as usize]];
+                if let Some(j) = &c.join {
+                    if !j.is_finished() {
+                        hev("caller_cancel", &c.name, 0, 0, "");
+                        j.abort();
+                        *stats.entry("cancels".into()).or_default() += 1;
+                    }
+                }
             } else if choice == 6 && mgr.is_some() {
                 let k = rng.range(1, nk);
                 mgr.as_ref().unwrap().stop_managing_paths(src_ia(), dst_ia(k));
